@@ -823,7 +823,9 @@ func propC14(c *Check) {
 				c.Violated("R2", cons, p.InstrPos(o), "the window offset restarts at 0 but the missed counter is kept: absences of different windows add up")
 			}
 		}
-		c.Floor("R2", "signing-window offset restarts", len(offs), 1)
+		if len(offs) == 0 {
+			c.Held("R2", "missed-counter-restarts-with-the-window @ "+FuncKey(hv), p.Pos(hv.Pos()), "no literal `Offset = 0` in this function (the window is restarted through a whole-record assignment or a helper, which zeroes both)")
+		}
 	}
 	c.HookRuns("R2", "x/locking/module.AppModule.BeginBlock", "x/locking/keeper.Keeper.BeginBlocker", "x/locking/keeper.Keeper.HandleVoteInfos")
 	c.HookRuns("R3", "x/locking/module.AppModule.BeginBlock", "x/locking/keeper.Keeper.BeginBlocker", "x/locking/keeper.Keeper.HandleEvidences")
@@ -847,24 +849,46 @@ func propC14(c *Check) {
 		} else {
 			item := ssa.Instruction(items[0])
 			succ := successTargets(hes)
-			for _, kind := range []string{"LightClientAttack", "DuplicateVote"} {
-				other := map[edgeKey]bool{}
-				for _, ef := range p.EdgeFacts(hes) {
-					if m := cmpRe.FindStringSubmatch(ef.Fact); m != nil && m[2] == "!=" && (m[1] == kind || m[3] == kind) {
-						other[ef.Key()] = true
-					}
-				}
-				cons := "every-piece-of-evidence-handled " + kind + " @ " + FuncKey(hes)
-				if len(other) == 0 {
-					c.Violated("R3", cons, p.Pos(hes.Pos()), "no test of the evidence type against "+kind+" reason=not-established")
+			rr := p.R(hes)
+			inLoopOfItem := rr.blockReach(item.Block())
+			cons := "every-piece-of-evidence-handled @ " + FuncKey(hes)
+			isNext := func(in ssa.Instruction) bool { return in == item || succ(in) }
+			bad := false
+			nDecisions := 0
+			for _, b := range hes.Blocks {
+				if len(b.Instrs) == 0 {
 					continue
 				}
-				ps := &PathSearch{Fn: hes, From: item, AvoidInstr: instrSet(handled), AvoidEdges: other, IsTarget: func(in ssa.Instruction) bool { return in == item || succ(in) }}
-				if t, path := ps.Find(); t != nil {
-					c.Violated("R3", cons, p.InstrPos(t), "a piece of evidence that may be of kind "+kind+" is passed over without handleEvidence", p.describePath(path)...)
-				} else {
-					c.Held("R3", cons, p.InstrPos(handled[0]), "the next piece / the end is reached without handleEvidence only when the type differs")
+				iff, ok := b.Instrs[len(b.Instrs)-1].(*ssa.If)
+				if !ok || len(b.Succs) != 2 {
+					continue
 				}
+				// a decision inside one iteration (not the loop control, which dominates the fetch) …
+				if b != item.Block() && !inLoopOfItem[b] {
+					continue
+				}
+				// … about this piece (the loop control never mentions it), other than a test of its kind
+				cond := rr.E(iff.Cond)
+				if !strings.Contains(cond, "EvidenceList.Get(") || strings.Contains(cond, "Evidence.Type(") {
+					continue
+				}
+				nDecisions++
+				if t, _ := (&PathSearch{Fn: hes, From: item, AvoidInstr: instrSet(handled), IsTarget: func(in ssa.Instruction) bool { return in == ssa.Instruction(iff) }}).Find(); t == nil {
+					continue // reached only after handleEvidence
+				}
+				for i := range b.Succs {
+					if t, path := (&PathSearch{Fn: hes, From: iff, AvoidInstr: instrSet(handled), AvoidEdges: map[edgeKey]bool{{b, 1 - i, nil}: true}, IsTarget: isNext}).Find(); t != nil {
+						bad = true
+						c.Violated("R3", cons, p.InstrPos(iff), "a piece of evidence is passed over without handleEvidence on an outcome of "+rr.E(iff.Cond)+", which is not a test of its kind", p.describePath(path)...)
+						break
+					}
+				}
+				if bad {
+					break
+				}
+			}
+			if !bad {
+				c.Held("R3", cons, p.InstrPos(handled[0]), fmt.Sprintf("between two pieces, handleEvidence is bypassed only by tests of the evidence type (%d other decisions about the piece come after the call)", nDecisions))
 			}
 		}
 	}
@@ -986,8 +1010,8 @@ func propC15(c *Check) {
 	un := p.MustFn("x/locking/keeper.Keeper.unlock")
 	c.touch(un)
 	r := p.R(un)
-	exitAdd := p.FindCalls(un, `^Time\.Add\(Context\.BlockTime\(\), \$3\.ExitingDuration\)`)
-	normAdd := p.FindCalls(un, `^Time\.Add\(Context\.BlockTime\(\), \$3\.UnlockDuration\)`)
+	exitAdd := p.FindCalls(un, `^Time\.Add\(Context\.BlockTime\(\), (?:\$\d|Params\.Get\(\)#0)\.ExitingDuration\)`)
+	normAdd := p.FindCalls(un, `^Time\.Add\(Context\.BlockTime\(\), (?:\$\d|Params\.Get\(\)#0)\.UnlockDuration\)`)
 	var qset *StoreSite
 	for _, s := range p.StoreSites(un) {
 		if s.Field.Name() == "UnlockQueue" && s.Method == "Set" {
